@@ -44,6 +44,7 @@ pub fn generate(rng: &mut Rng, tier: Tier, stats: &mut GenStats) -> Scenario {
         walkers: vec![walker],
         mutations: vec![],
         schedule: vec![],
+        triggers: vec![],
     }
 }
 
